@@ -144,6 +144,16 @@ let handle kind a =
         match read_bai (firstn_ml k bs) with
         | None -> "Err"
         | Some i -> "Ok:" ^ canon_bai i) cuts))
+  | "baik" ->
+      (* NV.Trunc.ProgCut.read_bai_k: C12's read program p_bai run on the prefix, with error kinds *)
+      let bs = bytes_of_hex a.(0) in
+      let cuts = parse_cuts a.(1) (hex_len a.(0)) in
+      Some (String.concat " " (List.map (fun k ->
+        match read_bai_k (firstn_ml k bs) with
+        | BErr UnexpectedEof -> "Err:UnexpectedEof"
+        | BErr InvalidData -> "Err:InvalidData"
+        | BErr OutOfFuel -> "Err:OutOfFuel"
+        | BOk i -> "Ok:" ^ canon_bai i) cuts))
   | "textz" ->
       let bs = bytes_of_hex a.(1) in
       let hdr = nat_of_int (int_of_string a.(2)) in
